@@ -2,7 +2,7 @@
    Only ExtrOcamlBasic is used: Z, positive, nat, list stay inductive. *)
 From Coq Require Import ZArith List Bool Extraction ExtrOcamlBasic.
 From PBC Require Import Base.CInt Gen.LeafC Gen.LeafC_BE Impl.Desc Impl.Mem Impl.Enc Impl.Size Impl.Pack
-     Impl.PackBuf Impl.Unpack Impl.Check Impl.BufSimple Impl.WF Impl.Canon Impl.Norm Impl.WNorm Impl.Typed Impl.Heap Impl.Ledger Spec.Defect Spec.WireMsg Impl.Denote GenModel.Ranges GenModel.Gen GenModel.LookupModel GenModel.Service.
+     Impl.PackBuf Impl.Unpack Impl.Check Impl.BufSimple Impl.WF Impl.Canon Impl.Norm Impl.WNorm Impl.Typed Impl.Heap Impl.Ledger Spec.Defect Spec.WireMsg Spec.WireRaw Impl.Denote Impl.SpecParse GenModel.Ranges GenModel.Gen GenModel.LookupModel GenModel.Service.
 Extraction Language OCaml.
 Set Extraction KeepSingleton.
 Extraction Blacklist List String Int.
@@ -11,7 +11,7 @@ Separate Extraction
   Unpack.unpack_top Unpack.merge_messages Unpack.init_msg Check.check_msg
   BufSimple.buf_init BufSimple.buf_appends BufSimple.buf_clear BufSimple.live_blocks BufSimple.plan_of_list
   WF.wf_msg Canon.canon_msg Canon.env_ok Defect.defect_msg Ledger.monitor Norm.norm_msg WNorm.wnorm_msg Typed.typed_msg Typed.unk_small Heap.h_unpack Heap.h_free Heap.h_run
-  WireMsg.read_message Denote.records
+  WireMsg.read_message Denote.records SpecParse.spec_parse_top
   Ranges.mk_ranges Ranges.dedup_sorted
   Gen.gen_all Gen.init_state Gen.file_supported
   LookupModel.name_search LookupModel.msg_field_by_name LookupModel.msg_field_by_number
